@@ -4,6 +4,7 @@ package main
 
 import (
 	"fmt"
+	"regexp"
 	"go/types"
 	"strings"
 
@@ -59,8 +60,10 @@ func newTypeEnv(pkg *types.Package) *TypeEnv {
 	return te
 }
 
+var reUint8 = regexp.MustCompile(`\buint8\b`)
+
 func (te *TypeEnv) typeStr(t types.Type) string {
-	return types.TypeString(t, te.qual)
+	return reUint8.ReplaceAllString(types.TypeString(t, te.qual), "byte")
 }
 
 // namedKey: name of a named type without type arguments ("RingBuffer"), qualified for foreign packages.
